@@ -229,15 +229,19 @@ def run_case(seed, tier, rec, st):
                 return f"    {n}: {ann}" + (f" = field({args})" if args else "") + "\n"
             cfg_aliases = {n: f"{n}-A" for n, a in how.items() if a == "cfg"}
             over = {"p": {"type": "integer", "minimum": 0, "maximum": 7}, "b": {"type": "string"}, "codes": {"type": "object", "additionalProperties": {"type": "string"}}}
-            fam.exec_src("@dataclass\nclass Acl(DataClassDictMixin):\n" + fld("p", "Perm", "") + fld("codes", "Dict[int, str]", "default_factory=dict") +
+            hidden = rng.random() < 0.5
+            # (a member that is never written - serialize="omit" - may be described, but cannot be demanded of the documents)
+            fam.exec_src("@dataclass\nclass Acl(DataClassDictMixin):\n" + fld("p", "Perm", "") +
+                         ("    hidden: str = field(metadata=field_options(serialize='omit'))\n" if hidden else "") + fld("codes", "Dict[int, str]", "default_factory=dict") +
                          fld("b", "Blob", "default_factory=Blob", "serialize=ser_blob, deserialize=de_blob") + "    q: Perm = Perm.R\n"
                          "    class Config(BaseConfig):\n" + f"        serialize_by_alias = {by_alias}\n" + (f"        aliases = {cfg_aliases!r}\n" if cfg_aliases else "") +
                          f"        json_schema = {{'properties': {over!r}}}\n"
                          "@dataclass\nclass Acls(DataClassDictMixin):\n    items: List[Acl] = field(default_factory=list)\n")
             m = fam.module
-            facts = {"kind": "override-under-alias", "alias_sources": repr(sorted(how.items())), "by_alias": by_alias}
+            facts = {"kind": "override-under-alias", "alias_sources": repr(sorted(how.items())), "by_alias": by_alias, "omitted_member": hidden}
             nested = rng.random() < 0.4
-            a1, a2 = m.Acl(m.Perm.R | m.Perm.X, {404: "nf"}), m.Acl(m.Perm.W, {})
+            hid = {"hidden": "h"} if hidden else {}
+            a1, a2 = m.Acl(p=m.Perm.R | m.Perm.X, codes={404: "nf"}, **hid), m.Acl(p=m.Perm.W, codes={}, **hid)
             tsrc, T, values = ("Acls", m.Acls, [m.Acls([a1, a2])]) if nested else ("Acl", m.Acl, [a1, a2])
             t = None
         else:
